@@ -955,7 +955,21 @@ func Abs(env envs.Environment, num *types.XNumber) types.XValue {
 //
 // @function round(number [,places])
 func Round(env envs.Environment, num *types.XNumber, places int) types.XValue {
+	if xerr := checkRoundingPlaces(places); xerr != nil {
+		return xerr
+	}
+
 	return types.NewXNumber(num.Native().Round(int32(places)))
+}
+
+// the cost of rounding grows with the number of places, so they are limited like those of format_number
+const maxRoundingPlaces = 100
+
+func checkRoundingPlaces(places int) *types.XError {
+	if places < -maxRoundingPlaces || places > maxRoundingPlaces {
+		return types.NewXErrorf("must take -%d to %d number of places, got %d", maxRoundingPlaces, maxRoundingPlaces, places)
+	}
+	return nil
 }
 
 // RoundUp rounds `number` up to the nearest integer value.
@@ -971,6 +985,10 @@ func Round(env envs.Environment, num *types.XNumber, places int) types.XValue {
 //
 // @function round_up(number [,places])
 func RoundUp(env envs.Environment, num *types.XNumber, places int) types.XValue {
+	if xerr := checkRoundingPlaces(places); xerr != nil {
+		return xerr
+	}
+
 	dec := num.Native()
 	if dec.Round(int32(places)).Equal(dec) {
 		return num
@@ -995,6 +1013,10 @@ func RoundUp(env envs.Environment, num *types.XNumber, places int) types.XValue 
 //
 // @function round_down(number [,places])
 func RoundDown(env envs.Environment, num *types.XNumber, places int) types.XValue {
+	if xerr := checkRoundingPlaces(places); xerr != nil {
+		return xerr
+	}
+
 	dec := num.Native()
 	if dec.Round(int32(places)).Equal(dec) {
 		return num
